@@ -323,6 +323,8 @@ func runProxyReq(root, line string) (resp apiResp) {
 // ---------------------------------------------------------------- parent side
 
 var chAPIGrpc, chAPIProxy *vh.Channel
+var apiOracle *vh.Oracle
+var apiRep *vh.Report
 
 var edge64 = []int64{0, 1, -1, 5, 9, 100, -9223372036854775808, 9223372036854775807, -2, 9223372036854775806, -9223372036854775807}
 
@@ -423,8 +425,8 @@ func genAPI(g gen, o vh.Opts) []string {
 				from = 1<<63 + uint64(g.r.Intn(4))
 			}
 			maxhits := 0
-			if g.r.Chance(1, 8) {
-				maxhits = g.r.Range(1, 2)
+			if g.r.Chance(1, 3) { // a production setting no test uses: the split layout may exceed it on some store
+				maxhits = g.r.Range(1, 3)
 			}
 			lines = append(lines, fmt.Sprintf("proxyreq %s shards=%s shuffle=%s q=%s from=%d to=%d size=%d offset=%d interval=%d wt=%s order=%d per=%d maxhits=%d",
 				corp, strings.Join(sh, ","), b(g.r.Bool()), []string{"a", "*"}[g.r.Intn(2)], from, to, size, offset,
@@ -459,5 +461,34 @@ func handleAPI(line string, raw []byte, orc *vh.Oracle) {
 		req := fmt.Sprintf("proxyreq %s %s %s %s %s %s %s %s %s %s %s", m["shuffle"], m["per"], m["maxhits"], m["from"], m["to"], m["size"], m["offset"],
 			m["interval"], m["wt"], m["order"], ar.Fracs)
 		chAPIProxy.Add(req, impl, strings.HasPrefix(impl, "ok ") && !strings.HasPrefix(impl, "ok -/"), "answer="+strings.Fields(impl + " x")[0], "shuffle="+m["shuffle"])
+		// the property on the real proxy + real stores: an answer is the page of the single ordered list (and the
+		// total of everything) - or an explicit error; never a "complete" answer that silently misses a shard
+		if strings.HasPrefix(impl, "ok ") && apiOracle != nil {
+			docs, _, _ := parseCorpus(m)
+			var match []seq.ID
+			from, to := atou(m["from"]), atou(m["to"])
+			for _, d := range docs {
+				if (m["q"] == "*" || d.svc == m["q"]) && uint64(d.id.MID) >= from && uint64(d.id.MID) <= to {
+					match = append(match, d.id)
+				}
+			}
+			desc := m["order"] == "0"
+			sortIDs(match, desc)
+			match = dedup(match)
+			off, size := atoi(m["offset"]), atoi(m["size"])
+			lo, hi := min(off, len(match)), min(off+size, len(match))
+			want := fmtIDs(match[lo:hi])
+			p := strings.Split(strings.Fields(impl)[1], "/")
+			apiOracle.Case(line, m["maxhits"] != "0", "maxhits="+m["maxhits"])
+			if p[0] != want || (m["wt"] == "1" && p[1] != fmt.Sprint(len(match))) {
+				class, site := "page-differs-from-single-list-real-stores", "proxy/search/ingestor.go:Search"
+				if m["maxhits"] != "0" {
+					class, site = "silently-short-answer-when-a-store-refuses", "proxy/search/ingestor.go:searchShard"
+				}
+				apiRep.Violate(vh.Violation{Site: site, Class: class,
+					What: fmt.Sprintf("MaxFractionHits=%s: the proxy reports success with ids %s total %s; all matching documents: page %s, total %d", m["maxhits"], p[0], p[1], want, len(match)),
+					Replay: []string{line}})
+			}
+		}
 	}
 }
